@@ -139,7 +139,7 @@ func c05Model(c *ctx) {
 		if len(s.kinds) >= 2 && s.mixed {
 			c.R.Nontrivial(strings.Join(s.Lines, "\n"))
 		}
-		if i%50000 == 0 {
+		if len(s.kinds) >= 2 && len(s.Lines) < 12 && c.R.WantSample() {
 			c.R.Sample(map[string]any{"script": s.Lines})
 		}
 		c05CheckModel(c, s.Lines, m)
